@@ -277,7 +277,7 @@ class Obs:
         v = rec.get("V") if rec and not self.err else None
         self.hv = v is not None
         self.vshape = v.get("shape") if v else None
-        self.routes = [r for r in ("E", "C", "O") if rec and not self.err and rec.get(r) is not None]
+        self.routes = [r for r in ("E", "C", "O", "OC") if rec and not self.err and rec.get(r) is not None]
 
 
 # ------------------------------------------------------------------ part B: failing stages inside pipelines
@@ -508,7 +508,7 @@ def run(ctx):
             if why:
                 ctx.violation("%s:value" % op, "pipeline %s %s: %s" % (op, cr.m["args"], why), det)
         if not hv:
-            for route in ("E", "C", "O"):
+            for route in ("E", "C", "O", "OC"):
                 if cr.rec.get(route) is not None:
                     ctx.violation("%s:%s:value_from_nothing" % (op, route), "pipeline %s %s: view is Nothing but route %s produced a value" % (op, cr.m["args"], route), det)
         ctx.seen((op, cr.m["args"]))
